@@ -173,7 +173,7 @@ def main():
         sel_prefix = tuple(u["id"] + "::" for u in sel)
         und_units = {x["unit"] for x in undecided}
         for b in sorted(baseline):
-            if b.startswith(sel_prefix) and b not in produced and b.split("::")[0] not in und_units:
+            if not args.rebaseline and b.startswith(sel_prefix) and b not in produced and b.split("::")[0] not in und_units:
                 undecided.append({"unit": b.split("::")[0], "reason": f"baseline obligation {b} was not generated on this run"})
 
         if args.rebaseline:
